@@ -160,15 +160,13 @@ def jobs(tier):
     langs = ['java', 'kotlin'] if tier == 'quick' else U.LANGS
     for lang in langs:
         for unit in ['gen_variable', 'gen_assignment', 'gen_conditional', 'gen_new', 'gen_variable_decl', 'generate_expr', 'gen_field_access',
-             'gen_func_call', 'gen_lambda', 'gen_is_expr']:
-            extra = dict(nvars=0, with_nested=False) if unit in ('generate_expr', 'gen_func_call', 'gen_field_access', 'gen_lambda') \
-                else dict(nvars=1, with_nested=(tier != 'quick'))
-            extra['sym_draws'] = (3 if tier == 'quick' else 5) if unit == 'gen_func_call' else (4 if tier == 'quick' else 6)
+             'gen_func_call', 'gen_lambda', 'gen_is_expr', 'gen_equality_expr', 'gen_logical_expr', 'gen_comparison_expr', 'gen_array_expr', 'gen_func_call_ref', 'gen_func_ref']:
+            extra = U.unit_params(unit, tier, measure=True)
             out.append(Job('%s-%s' % (unit, lang), U.harness,
                            dict(lang=lang, unit=unit, aspect=ASPECT, max_depth=2, sym_depth=True, **extra),
                            split_depth=6, functions=U.FUNCS[unit], stubs=U.STUBS, require_events=['unit:%s' % unit],
                            budget_s=2400, crosscheck_every=500,
-                           bounds='as the C01 unit, with the depth counter symbolic in 1..6 and max_depth = 2', outside=OUT))
+                           bounds=U.unit_bounds(extra) + '; depth counter symbolic in 1..6, max_depth = 2', outside=OUT))
     from src import utils
     from src.generators.generator import Generator
     out.append(Job('identifier-pool-history', h_word_pool, dict(K=6 if tier == 'quick' else 8, lang='java'), split_depth=4,
